@@ -23,6 +23,7 @@ EXPLANATION = (
   "(DEP) begin/end are the block's TCI/TCO offsets minus the programme start, negative begins return before any write; (EXA) those "
   "offsets are exact rationals at the GSI frame rate; (LINT-g/LINT-e/DEF-init) no mistyped GSI/TTI field, no identity comparison of "
   "subtitle numbers, no DataFile attribute left unassigned on an error path."
+  " (STATE-alias / STATE-global) no function of the anchored modules mutates a module- or class-level container, rebinds module / class state or mutates a mutable default argument, so a result never depends on earlier calls;"
 )
 RULE_TEXT = "per table entry / byte value (aggregated per classifier) / struct format / call site"
 UNDECIDED = ["region geometry from VP/JC and row counts", "cumulative-set accumulation behaviour", "the text-field state machine as a whole (span boundaries, space insertion)",
